@@ -53,6 +53,10 @@ def run(ctx):
         for nm in names:
             for rep in range(25 if ctx.thorough else 6):
                 p = problems.gen_problem(rng, A, alg_name=nm, with_constraints=False, box="finite" if rng.random() < 0.7 else None)
+                # the virtual clock advances once per callback: one vector call vs m scalar calls read different times, so a time
+                # limit is not part of the compared behaviour
+                p.pop("maxtime", None)
+                p.pop("clockq", None)
                 n = p["n"]
                 items, j = [], 0
                 for _ in range(rng.choice([1, 1, 2])):
